@@ -599,3 +599,43 @@ def rule_test_rendering(rep: Report, repo: Repo, rule: str) -> None:
                           "EXPECTFAIL is not shown exactly when the test is expected to fail", witness="ct_add_test(NAME t EXPECTFAIL) / ct_add_test(NAME t)")
     rep.check(len(set(texts.values())) == len(texts) == 3, rule, MOD, "three distinct warnings", "two test kinds share one warning text")
     rep.floor(rule, 6, "test rendering facts")
+
+
+def rule_member_independence(rep: Report, repo: Repo, rule: str) -> None:
+    """C08-R5 / C09-R3m: how one member of a class is rendered does not depend on its siblings."""
+    rep.rule(rule, "a class renders each member by `member.process(<class directive>)` with no further argument and with no state "
+                   "carried from one member to the next: the rendering of a documented member cannot depend on which other "
+                   "(possibly undocumented, flag-dependent) members the class has")
+    c = "ClassDocumentation"
+    n = 0
+    for i, o in enumerate(outcomes(repo, c)):
+        ems = emissions(o, i)
+        top = top_directive(ems)
+        if top is None:
+            continue
+        for e in ems:
+            if e.method != "process":
+                continue
+            n += 1
+            ok_args = e.args == (top.term,) and not e.kwargs
+            rep.check(ok_args, rule, where(c), f"{show(e.recv)}.process({', '.join(show(a)[:30] for a in e.args)}{', ' if e.kwargs else ''}"
+                                              f"{', '.join(k + '=' + show(v)[:40] for k, v in e.kwargs)})"[:120],
+                      "a member is rendered with extra arguments computed by the class (index flags, counters, names seen so far): "
+                      "its rendering changes when sibling members are added or removed, e.g. by an include_undocumented_* flag",
+                      witness="two overloads `cpp_constructor(CTOR C int)`, the first undocumented, with include_undocumented_cpp_constructor on/off")
+            if e.loop is not None:
+                lp = o.state.loops.get(e.loop)
+                carried = [k for k in (lp or {}).get("assigned", {}) if k not in ("member", "attribute", "method", "m", "a")]
+                conds = [cnd for oc in lp["outcomes"] for cnd, _v in oc["conds"]] if lp else []
+                muts = [x for oc in (lp["outcomes"] if lp else []) for x in oc["effects"] if x[0] in ("push", "call", "mutcall", "store", "extend")]
+                rep.check(not conds and not muts, rule, where(c), f"member loop #{e.loop} over {show(lp['iter']) if lp else '?'}: no conditions, no bookkeeping",
+                          f"the member loop keeps state across members ({[x[0] for x in muts][:3]}, conditions {len(conds)}): later members "
+                          f"are rendered depending on earlier ones")
+    # the member kinds accept exactly (self, writer)
+    from ..model import func_params, param_defaults
+    for mc in ("MethodDocumentation", "AttributeDocumentation"):
+        fn = repo.cls(mc).methods.get("process")
+        ps = func_params(fn)
+        rep.check(len(ps) == 2, rule, where(mc), f"process({', '.join(ps)})",
+                  f"{mc}.process takes additional parameters: the class can render the same member in different ways")
+    rep.floor(rule, 6, "member rendering facts")
